@@ -69,9 +69,14 @@ def run_line(app, inv, tokens, cfg, raw=None):
     return (outcome, out.data(), err.data(), calls)
 
 
+def _kinds(spec):
+    """hid -> how the handler is attached (JSON keys are strings)."""
+    return {int(k): v for k, v in (spec.get("handler_kinds") or {}).items()}
+
+
 def ref_run_line(spec, scripts, tokens, cfg):
     inv = []
-    app = apptree.build_app(spec, scripts, inv)
+    app = apptree.build_app(spec, scripts, inv, handler_kinds=_kinds(spec))
     return run_line(app, inv, tokens, cfg)
 
 
@@ -273,6 +278,13 @@ def gen(S, tier):
             if c.chance(0.25):
                 # the handler extends the list values it was handed (after they were recorded)
                 scripts[str(cmd["hid"])].insert(0, ["mutate_args"])
+            if c.chance(0.2):
+                # attached as a factory: every run asks for a handler of its own, which keeps state on itself
+                spec.setdefault("handler_kinds", {})[str(cmd["hid"])] = "factory"
+                scripts[str(cmd["hid"])].insert(0, ["stateful"])
+            if c.chance(0.12):
+                # output that leaves a style open when the handler is done (or fails)
+                scripts[str(cmd["hid"])].insert(0, [c.pick(["out", "err"]), c.pick(["<info>working on it", "<b>still bold", "<fg=red>alarm"]), None])
         lines = []
         for _ in range(w.randint(2, 8)):
             p, cmd, ch = w.pick(lv)
@@ -450,7 +462,7 @@ def _exec_app(sc, res):
     spec, scripts, cfg = sc["app"], sc["scripts"], sc["cfg"]
     inv = []
     try:
-        app = apptree.build_app(spec, scripts, inv)
+        app = apptree.build_app(spec, scripts, inv, handler_kinds=_kinds(spec))
     except Exception as e:
         res.events.append(("unbuildable", type(e).__name__))
         return
